@@ -501,7 +501,19 @@ def parseListVal (s : String) : LL.ListVal :=
 
 def opBodies (fields : List String) : String :=
   match fields with
-  | [bools, ints, strs, lists, exts, times] =>
+  | [bools, ints, strs, lists, exts, times, envS] =>
+    -- the environment: what the real external functions answered for the strings of this view
+    let entries := if envS == "." then [] else envS.splitOn ","
+    let unh (h : String) : List Nat := if h == "-" then [] else (unhexBytes h).getD []
+    let fnTab : List (Nat × List Nat × Option (List Nat)) := entries.filterMap (fun e => match e.splitOn ":" with
+      | [k, h, r] => if k.startsWith "f" then some ((dropS k 1).toNat?.getD 0, unh h, if r == "F" then none else some (unh (dropS r 1))) else none
+      | _ => none)
+    let prTab : List (Nat × List Nat × Bool) := entries.filterMap (fun e => match e.splitOn ":" with
+      | [k, h, r] => if k.startsWith "p" then some ((dropS k 1).toNat?.getD 0, unh h, r == "1") else none
+      | _ => none)
+    let env : LL.Env := {
+      fn := fun i s => match fnTab.find? (fun t => t.1 == i && t.2.1 == s) with | some t => t.2.2 | none => none
+      pred := fun i s => match prTab.find? (fun t => t.1 == i && t.2.1 == s) with | some t => t.2.2 | none => false }
     let v : LL.View := {
       times := (parsePairs times ",").map (fun p => (p.1, parseTime p.2))
       bools := (parsePairs bools ",").map (fun p => (p.1, p.2 == "1"))
@@ -517,7 +529,7 @@ def opBodies (fields : List String) : String :=
       else if kind == "str" then v.strs.any (·.1 == k) else if kind == "time" then v.times.any (·.1 == k) else v.lists.any (·.1 == k)
     let missing := ((List.range Generated.bodyFieldNames.length).zip Generated.bodyFieldNames).filter (fun p => !have_ p.1 p.2.2)
     if !missing.isEmpty then "missing-field " ++ " ".intercalate (missing.map (·.2.1)) else
-    ",".intercalate (Generated.bodyRules.map (fun r => match r.run v with
+    ",".intercalate (Generated.bodyRules.map (fun r => match r.run env v with
       | .panic => "P"
       | .notApplicable => "N"
       | .result s => toString s))
